@@ -21,6 +21,13 @@ thread_local! {
     static BPM_LAST_LEN: Cell<usize> = const { Cell::new(0) };
 }
 
+/// Monitor for the safety contracts of the crate's `unsafe fn`s: the harness
+/// enumerates inputs, the callee checks that every call site keeps its promise.
+#[track_caller]
+pub fn contract(holds: bool, what: &str) {
+    assert!(holds, "rosu_pp_verif contract violated: {what}");
+}
+
 /// Choose the iteration order for subsequent `Beatmap::bpm` calls on this
 /// thread.
 pub fn set_bpm_order(order: Option<usize>) {
